@@ -12,673 +12,681 @@ Definition show_fres (r : fres) : string :=
   end.
 Definition check (rs : list rune) : string := digest (show_fres (format_res rs)).
 Definition full (rs : list rune) : string := show_fres (format_res rs).
-Eval vm_compute in ("<<<M100>>>" ++ check (runes_of_ascii "options
-/// triple
-//
-{matchKey	= true ;	packetx =uint32; metadata =int64
-    ;Packet = float64 _x= // @lengthOf(
-""" ++ [233]%N ++ runes_of_ascii "t" ++ [233]%N ++ runes_of_ascii """}root packet asx { @rightPad (
-'\x00')
-@calculatedFrom( """" //
-)  @tag( 4294967296)msg_type { repeat
-zchar[ 65535 ]charz `{ , }`  , char
-roots ,T { rootA
-len ,
-    } ,repeat u128  `u8 x,`
-    , }
-    ,  }
-    root packet	MetaDataX{ // c
-char[ 4294967296
-]
-    Z9_// `tick` ""quote"" 'q'
-,lengthOf// c
-rootA `{ , }`,@rightPad ( '0'
-    ) zchar[	00
-]i8i8 ,	char[
-1
-]a1	,
+Eval vm_compute in ("<<<M1814>>>" ++ check (runes_of_ascii "
+packet
+    falsey	{	@leftPad
+(  )  int8
+
+    uint8x
+, zchar[
+10
+
+] matchKey
+
+, 
+
     // c
-    float32 crc  `
-` , Z9_
-    { f32a {
-    float32//
-len, f32a{ char[
-0 ]// " ++ [27880; 37322]%N ++ runes_of_ascii "
-pack@calculatedFrom( ""it's"" )
-, T @lengthOf(// 50% %s
-f32a )
-// c
-// `tick` ""quote"" 'q'
-, i64 lengthOf// " ++ [128512]%N ++ runes_of_ascii " emoji
-@calculatedFrom(  ""x y"") , zchar[ 4294967296
-]	As @calculatedFrom(  ""x y""
-    )
-    , }
-    , } ,  repeat	calculatedFrom {  repeat Packet { x
-    ,  } ,}
-, u8x{ metadata
-@calculatedFrom(
-    ""1"" )
-    // 50% %s
-    , repeat zchar[ // a // b
-65535 ]  Z9_ ,
-// " ++ [128512]%N ++ runes_of_ascii " emoji
-// a // b
-} , match As as  repeatCount { 65535 : roots ,
-""packet""
-: uint8x ,
-3 :
-A,
-""{,}"" :
-    leftPad,} , } , @calculatedFrom( // trailing space 
-""// no comment"" ) repeat stringy asx , char[] MetaDataX@lengthOf(
-// " ++ [128512]%N ++ runes_of_ascii " emoji
-// packet A { u8 x, }
-A ), @rightPad	('0' ) @leftPad
-    ( ' ' )	Z9_ @calculatedFrom( ""a\""b"" ) , match// packet A { u8 x, }
-o	as repeatCount {[3 , 0123456789 ]
-:
-    // c
-    string_ ,  4294967296 :
-    Logon , 7 :o	, } ,
-    }
-    packet body {} 	 ")).
-Eval vm_compute in ("<<<M1877>>>" ++ check (runes_of_ascii "  options
-	{ 
-}
-	packet x { repeat // trailing space 
-  rootA{repeat string 
-Header 
-,
-}
-
-,  chars	float  ,	@tag(65535 )x_y_z {
-repeat
-T
-`// not a comment`
-,  string  string_  /// triple
-	  @lengthOf(
-x_y_z
-)
-    `say ""hi""`  ,
-
-    Header len``
-,string
-    lengthOf
-    , } ,	@tag(
-0123456789 )
-	match  crc
-
-    as
-BodyLength 
-{ ""\" ++ [233]%N ++ runes_of_ascii """
-:repeatCount 65535  //x
-	:
-	i8i8
-,
-0  :
-A,
-    [""a	b""
+repeat matchKey
+{ repeat i8
+    matchKey
 	,
-7  ]: packetx
-,},@lengthOf( 
-charz )
+a1@calculatedFrom(	//
+		""\n"" )
+	`two words`, } 
+,  a1 {
+	char[]
+	a1
 
-match
+, char x_y_z
+	// @lengthOf(
 
-    body
+,zchar[
+	65535
+]	// a // b
+  	len	`u8 x,`	, } ,	repeat MetaDataX
+	{ repeat  leftPad
 
-    as uint8x
-	{  // 50% %s
-    00:
+    pack , 
+string i8i8`say ""hi""` ,
+}	// 50% %s
 
-stringy [
-    007
-	,""`tick`""// 50% %s
-      ,	""\n""] :  T
-[""// no comment""
+, 
+      // " ++ [27880; 37322]%N ++ runes_of_ascii "
+// @lengthOf(
 
-, ""a\\""]
+@leftPad //x
+  ( '0'  ) @lengthOf(
 
-    :	float,
-[
+    BodyLength
 
-    10 
-]
-://x
+)
 
-	A
-    , ""a	b""	: 	 //	t
-roots 
-}
-
-,
-pack  { match // a // b
-	Pad as
-calculatedFrom {  255
-
-    :string_
-
-""" ++ [28040; 24687]%N ++ runes_of_ascii """: i64_ 
-, }	,// " ++ [27880; 37322]%N ++ runes_of_ascii "
-	uint32	matchKey
+    @rightPad (
+    ' ' 	 // 50% %s
+  )char[]  // " ++ [128512]%N ++ runes_of_ascii " emoji
+  charz , @lengthOf(
+i8i8 )
 
 @calculatedFrom(
-""1""
+    ""CRC32"" 
+)
+@lengthOf(
+T
+	) metadata , // 50% %s
+} packet  x	{
+    @tag(
+0123456789  )match
+tag as
+Pad
+	{  [  //x
 
-// 50% %s
-) , 
-len
-	leftPad ,
-    repeat 
-MetaDataX  {
-    i64 
-	    // " ++ [128512]%N ++ runes_of_ascii " emoji
-//
-		len
+  ""\" ++ [233]%N ++ runes_of_ascii """ 
+,
+""a	b"" ,  // " ++ [27880; 37322]%N ++ runes_of_ascii "
+	""a\\"" ,""{,}"",	007
 
+,	007
 ,
 
-}
-, }
-	,  char[] tag 
-        // packet A { u8 x, }
-    //x
+0123456789
+] // c
+  	:  options1
+,  }
+,
+@leftPad	(
+	)
 
-@calculatedFrom(""packet""
-)
-    // `tick` ""quote"" 'q'
+    @lengthOf(
+	charz
+	)
+    @tag(
+42) 
+o{	i32 msg_type
+@lengthOf(	// `tick` ""quote"" 'q'
+  A
+    )
+``	,
+zchar[
+	1
+    ]	charz
+	    //	t
+	//x
+  ,
 
-// a // b
-`line1
-line2`
-
-    ,float ,
-	uint8x	@lengthOf(
+    i8 	 //x
+	packetx`tab	here`
+,repeat
 
 crc
 
-    )  `it's` ,	@tag( 007
+    rootA ,  },//	t
+    repeat	uint8x asx
 
-) float32
-	tag	@calculatedFrom(""" ++ [233]%N ++ runes_of_ascii "t" ++ [233]%N ++ runes_of_ascii """	)	,}
-")).
-Eval vm_compute in ("<<<M1364>>>" ++ check (runes_of_ascii "// top
-options
-    // c0
-{ // c1a
-  // c1b
-LittleEndian
-    // c2
-= // c3
-true // c4a
-  // c4b
-;
-    // c5
-StringPrefixLenType
-    // c6
-= // c7a
-  // c7b
-u32 // c8
-;
-    // c9
-ArrayPrefixLenType // c10a
-  // c10b
-= // c11a
-  // c11b
-u64 // c12a
-  // c12b
-; } // c14
-packet
-    // c15
-Logon // c16a
-  // c16b
-{ // c17a
-  // c17b
-string
-    // c18
-OrderId // c19a
-  // c19b
-, // c20a
-  // c20b
-uint32 lastPx
-    // c22
-,
-    // c23
-repeat // c24
-char[ // c25
-6 ] Side2 // c28
-, // c29a
-  // c29b
-i64 // c30a
-  // c30b
-Tail // c31
-, // c32
-repeat
-    // c33
-i8 // c34
-f1
-    // c35
-, }
-    // c37
-packet // c38a
-  // c38b
-Party // c39
-{ } packet Quote // c43a
-  // c43b
-{ // c44
-repeat // c45
-char[ 6 ] // c48
-clOrdID // c49
-, repeat Logon // c52
-, // c53
-}
-    // c54
-root // c55
-packet
-    // c56
-Order // c57a
-  // c57b
-{
-    // c58
-zchar[ // c59a
-  // c59b
-5 // c60
-]
-    // c61
-Acct ,
-    // c63
-repeat // c64a
-  // c64b
-f64 price ,
-    // c67
-} // c68
-")).
-Eval vm_compute in ("<<<M1492>>>" ++ check (runes_of_ascii "
+    , repeat  char[]
+Foo
 
-  root packet	charz {float32
-	matchKey
-	@lengthOf(falsey
-
-)
-	`` 
-,@lengthOf( stringy
-
-) trueish {
-uint16
-f32a @lengthOf(  Foo  // 50% %s
-  )
-        // " ++ [27880; 37322]%N ++ runes_of_ascii "
-	//	t
-      ,	},	// a // b
-  	@leftPad
-()
-
-    repeat 
-char[
-1
-
-    ]
-asx
-	,@calculatedFrom(""" ++ [233]%N ++ runes_of_ascii "t" ++ [233]%N ++ runes_of_ascii """ ) 	 /// triple
-	uint8
-
-    Foo,
-char	metadata
-`crlf
-line`  , // " ++ [27880; 37322]%N ++ runes_of_ascii "
-repeat	x_y_z
-`tab	here`, 
-@tag( 65535
-
-    )	o{
-	uint16 rootA
-    `100% of %d` 
 ,
 
-match
-    charz
+repeat zchar[ 0123456789	] u128
+, 
+match	uint8x 
 as
 
-    tag
-	{10 : 
-float 
-,
-    1 // trailing space 
-	:
+_x  {""packet""
+    : f32a	,
+    255 
+:	roots
 
-    Foo , },	repeat char[ 0]  _x ,
-	repeat	Packet ,  } 
-,	@calculatedFrom(
+,[
 
-""" ++ [128512]%N ++ runes_of_ascii """ )
-    @rightPad
-	(
-	) matchKey	{
+""" ++ [28040; 24687]%N ++ runes_of_ascii """,	0123456789	,""CRC32""
 
-char[]roots`crlf
-line` 
-,
-
-uint8 trueish @calculatedFrom( ""CRC32""	)
-	`doc`  , // " ++ [27880; 37322]%N ++ runes_of_ascii "
-	int64 crc
-
-@calculatedFrom(  """ ++ [128512]%N ++ runes_of_ascii """
-
-),
-}, @tag( 
-7// @lengthOf(
-    ) 
-zchar[	42	]
-    uint8x@lengthOf(
-tag
-) , }  // " ++ [27880; 37322]%N)).
-Eval vm_compute in ("<<<M1382>>>" ++ check (runes_of_ascii "
-
-  options 
-{ ArrayPrefixLenType=  u32  ;
-
-FixedStringPadFromLeft =false ;
-
-    FixedStringPadChar 
-='0';}packet
-	Trade
-    {
-	repeat
-
-InVenue78 {u16
-	tag7 
-,repeat InLastpx9	{ 
-u8  pad0
-
-,
-	} , 
-int64
-Tail
-    ,
-
-repeat
-    InQty37 {
-char[ 
-2	]
-OrderId	,	zchar[
-    6] 
-lastPx 
-,
-	int64	Qty
-,
-	}
-	,
-
-uint8	Side2 ,
-
-}	,  }
-	packet Logon 
-{
-
-repeat string
-	venue  , @rightPad (
-
-'\x00'
-	) char[
-
-3]
-
-sym,zchar[ 9
-] count
-    ,zchar[
-7
-]
-
-f1
-	,Trade  ,
-    }
-	packet
-
-Logout{
-	} root packet
-	Reject	{int32	sym ,u8 Px,
-u32 Tail
-@lengthOf(	Body
-
-    )
-,
-
-match 
-Px
-    as Body
-{	184	: 
-Trade
-	,
-    173 :
-    Logon
-,
-
-12  :	Logout,
-    } , u32 
-tag7 @calculatedFrom(""CRC32""
-
-    )
-,
-}")).
-Eval vm_compute in ("<<<M1667>>>" ++ check (runes_of_ascii "packet
-int{ /// triple
-  lengthOf
-
-,  // " ++ [27880; 37322]%N ++ runes_of_ascii "
-match  x_y_z
-	as
-trueish{
-
-    [""it's""
-    ,
-    0123456789
-
-    ]
-:
-	i64_  ,} ,@tag(  255	)	@leftPad	// " ++ [27880; 37322]%N ++ runes_of_ascii "
-  (	// packet A { u8 x, }
-  '0'
-)
-
-options1
-
-@calculatedFrom(""1""
-)`
-`  ,  // @lengthOf(
-  @leftPad
-    ( '\x00' )  // packet A { u8 x, }
-
-	len
-@lengthOf(
-	rootA
-)
-,
-i64_
-	packetx ,
-@tag(
-
-42 )  int32 /// triple
-trueish,i8
-
-options1 
-`two words`
-	,	@leftPad(	'0' ) char[1	]
-calculatedFrom
-
-`tab	here` 
-,  @lengthOf(
-
-o  ) 
-@tag(
-    007// 50% %s
-		)u8	_x 
-@calculatedFrom( 
-""`tick`"" ) 
-,repeatCount @lengthOf(
-
-    MetaDataX 
-)
-
-,  /// triple
-  }
-")).
-Eval vm_compute in ("<<<M200>>>" ++ check (runes_of_ascii "packet charz {repeat i64_
-, trueish
-    {	repeat _x , repeatCount
-, repeat
-u16
-// " ++ [128512]%N ++ runes_of_ascii " emoji
-// a // b
-matchKey `
-` , trueish
-@lengthOf( Z9_)	,
-}
-, zchar[3
-    ]body	,
-    @rightPad // @lengthOf(
-(' ') body packetx `{ , }` , // packet A { u8 x, }
-repeat matchKey { uint8
-metadata
-    ``
-    // @lengthOf(
-    ,  trueish @calculatedFrom( ""abc"" )
-    ,
-}
-    , @lengthOf( packetx )	int32 uint8x`tab	here`,
-@rightPad//
-(
-) @rightPad ( ) f32a
-// " ++ [27880; 37322]%N ++ runes_of_ascii "
-// a // b
-,tag _x `a\` , } packet
-    a1 {
-@tag(4294967296 ) repeat
-    f32 a1 `line1
-line2` , }")).
-Eval vm_compute in ("<<<M1496>>>" ++ check (runes_of_ascii "
-packet	repeatCount
-
-    {
-	@tag(
-7 )match	T as
-i64_
-{""" ++ [233]%N ++ runes_of_ascii "t" ++ [233]%N ++ runes_of_ascii """ : /// triple
-    body
-	,  } ,
-@lengthOf(	crc )
-    float64
-    body `u8 x,`
-,repeat// a // b
-
-rootA  //	t
-	  { int16
-    x_y_z
-    `two words`	// " ++ [27880; 37322]%N ++ runes_of_ascii "
-	,
-zchar[
-    4294967296 
-
-    // @lengthOf(
-
-] trueish`two words` ,
-Pad
-
-@lengthOf( 
-Pad)	`// not a comment`
-    ,
-} 
-, 
-tag
-string_
+    ,  0
 	, 
-@lengthOf( len )
-// packet A { u8 x, }
-
-	@tag( 255	)	@lengthOf( 
-	// " ++ [27880; 37322]%N ++ runes_of_ascii "
-	Logon  )
-int
-, Foo
-	@lengthOf(
-
-    leftPad	)
-
-    `
-` ,}")).
-Eval vm_compute in ("<<<M1557>>>" ++ check (runes_of_ascii "  options
-	{
-    T 
-=""" ++ [28040; 24687]%N ++ runes_of_ascii """ 
-;  string_
-	// @lengthOf(
-// 50% %s
-=
-false
-	;  f32a
-=
-    0123456789	;
-
-    Z9_
-    = 
-255
-	}MetaData
-
-chars 	 // " ++ [27880; 37322]%N ++ runes_of_ascii "
-		{ 
-float32 charz `{ , }`
-,  // @lengthOf(
-  	zchar[	1  ] 
-u8x
-
-    `100% of %d`  , uint16	asx
-
-`two words` ,
-    char[
-	4294967296] Header
-, i32
-	Logon
+1 ,
+255  ] 
+:
+    // @lengthOf(
+  Packet
     ,
-	char[
-0123456789]  // c
-crc
-    , 
-} 
-packet/// triple
-	options1{ falsey `crlf
-line`  ,
-// `tick` ""quote"" 'q'
+	""`tick`"" // packet A { u8 x, }
+
+  :
+    metadata  ,
+    ""x y""
+	:
+	rootA  }
+,	_x@lengthOf( crc)	,
+	@lengthOf(Logon
+	)repeat  Packet options1 , match
+
+trueish
+
+as
+
+    lengthOf {
+	65535  :
+float
+, } , @tag( 65535  ) lengthOf
+
+@lengthOf( 	 // `tick` ""quote"" 'q'
+a1
+	)
+
+`tab	here` ,
+} ")).
+Eval vm_compute in ("<<<M1634>>>" ++ check (runes_of_ascii "
+
+  root packet  o	{	repeat
+    zchar[ 65535 ] o ,	repeat char[ // trailing space 
+		0	]
+	zchar, int64
+x
+	`
+`
+	    //
+		//
+,// a // b
+string
+msg_type // a // b
+	,
+        // c
+@leftPad( '\x00'
+	) repeat
+calculatedFrom 
+    // trailing space 
+  A
+
+    ,
+
+string	Header @lengthOf(  a1
+)
+`crlf
+line`, repeat  crc
+	{f32  Pad
+    ,  match
+    charz 
+	/// triple
+	  as Logon  
+      //
+
+  { [	""1"" 
+,	// c
+	""CRC32"" , 
+""" ++ [28040; 24687]%N ++ runes_of_ascii """,	00
+,
+""1""
+    ,""{,}""
+
+    ,
+
+""" ++ [28040; 24687]%N ++ runes_of_ascii """, ""{,}"" ] 
+  // packet A { u8 x, }
+	  //x
+    :  uint8x,
+	[  3
+,
+""CRC32""
+
+] : 
+        // a // b
+lengthOf,
+
+    42
+:u128	,	} 
+,  Z9_ ,float64 u128
+
+    `{ , }`
+,}	,
+
+u16
+
+calculatedFrom , 
+zchar[ 3
+]
+    calculatedFrom	//	t
+
+,
+@tag(
+	10
+	) match charz
+    as
+_x{
+    ""abc""
 
 /// triple
-    }
+	:
+	    // `tick` ""quote"" 'q'
+    //	t
+
+zchar 
+,
+
+    ""packet""
+	:
+roots , 255	//x
+
+	: 
+options1
+
+, ""1""
+	: uint8x // packet A { u8 x, }
+  ,  
+      // 50% %s
+} 
+
+    // trailing space 
+,}
+    MetaData
+len
+{  uint8x len ,} 
+packet
+
+    options1
+{
+
+    @tag(10
+
+) i8
+roots @lengthOf(
+    lengthOf), char[  1
+
+]
+
+u128  `" ++ [28040; 24687; 31867; 22411]%N ++ runes_of_ascii "`// @lengthOf(
+    ,
+	a1 
+tag
+
+`say ""hi""` ,string asx
+    `// not a comment` 
+,}
+
+    packet calculatedFrom{  int64 
+a1	//x
+  ,
+// a // b
+    //x
+}
 ")).
-Eval vm_compute in ("<<<M1790>>>" ++ check (runes_of_ascii "// top
+Eval vm_compute in ("<<<M1743>>>" ++ check (runes_of_ascii "packet rootA {
+    @lengthOf(a1)
+    f32a @lengthOf(Header) `// not a comment`,
+    match T as i64_ {
+        42 : string_,
+    },
+    match stringy as Header {
+        [65535] : msg_type,
+        ""it's"" : u,
+        ""\n"" : lengthOf,
+        // `tick` ""quote"" 'q'
+    },
+    @tag(42)
+    repeat zchar f32a `u8 x,`,
+    @tag(255)
+    //
+    repeat Pad {
+        x T,
+    },
+    @calculatedFrom(""{,}"")
+    repeat leftPad {
+        //	t
+        u64 u8x `" ++ [28040; 24687; 31867; 22411]%N ++ runes_of_ascii "`,
+        len @calculatedFrom(""\" ++ [233]%N ++ runes_of_ascii """),
+        zchar[4294967296] falsey,
+    },
+    @tag(7)
+    match i8i8 as pack {
+        3 : string_,
+        0123456789 : packetx,
+        [42] : tag,
+        ""\n"" : a1,
+        [0123456789, 1] : x_y_z,
+        0 : float,
+    },
+    repeat u128 As,
+}
+
 options {
-}// c2a
+    packetx = """ ++ [128512]%N ++ runes_of_ascii """;
+    msg_type = ' ';
+    Packet = 10;
+}
 
-// c2b
-MetaData packetx {
-    int falsey `two words`,// c9
-    int32 trueish,
-    // c12
-    char[] u8x,
-    A x `// not a comment`,// c19
-}// c20a
+// a // b
+packet Pad {
+    // " ++ [27880; 37322]%N ++ runes_of_ascii "
+    char[] pack,
+    repeat float32 falsey,
+    char[42] Z9_,
+    Logon @lengthOf(i8i8) `
+    `,
+    tag {
+        x,
+        i32 float @lengthOf(crc),
+    },
+}")).
+Eval vm_compute in ("<<<M1359>>>" ++ check (runes_of_ascii "options {
+    LittleEndian = false;
+    StringPrefixLenType = u16;
+    ArrayPrefixLenType = u8;
+    FixedStringPadChar = '0';
+}
+packet Leg {
+    zchar[1] Ref,
+    repeat string count,
+    repeat InMsgkind21 {
+        repeat char[2] price,
+        uint64 sym,
+        zchar[9] msgKind,
+    },
+    zchar[5] Note,
+}
+packet Ack {
+    u16 seqNo,
+    repeat char[1] Acct,
+    @leftPad(' ') char[4] msgKind,
+    repeat InTag747 {
+        Leg,
+    },
+    repeat string Tail,
+    Leg,
+}
+packet Trade {
+    u64 clOrdID,
+    repeat InLastpx24 {
+        char[10] Note,
+        char[3] Qty,
+        repeat char[2] Side2,
+        Ack,
+        repeat InX47 {
+            Ack,
+        },
+    },
+}
+root packet Heartbeat {
+    repeat u64 Acct,
+    string lastPx,
+    u8 Side2,
+    match Side2 as Body {
+        2 : Trade,
+        157 : Ack,
+        46 : Leg,
+    },
+    u32 sym @calculatedFrom(""CR\
+C32""),
+}
+")).
+Eval vm_compute in ("<<<M1896>>>" ++ check (runes_of_ascii "
+root
+	packet  crc {
+	MetaDataX 
+@calculatedFrom( 
+    // " ++ [128512]%N ++ runes_of_ascii " emoji
+    	//
+      ""// no comment""
 
-// c20b
-root packet i8i8 {
-    @lengthOf(repeatCount)
-    // c27a
-    // c27b
-    @tag(1)
+    ) , 	 // " ++ [27880; 37322]%N ++ runes_of_ascii "
+@calculatedFrom(  """"
+
+    ) 
+
+    // trailing space 
+
+  len metadata  // @lengthOf(
+    	, @tag( 
+0	) 
+	    // `tick` ""quote"" 'q'
+    // c
+char As
+
+`doc`  ,	@lengthOf(	// `tick` ""quote"" 'q'
+
+  crc 
+    // c
+    //	t
+  )repeat leftPad 
+	// a // b
+	  {
+repeat
+    chars
+	u8x 
+`// not a comment`,uint8x
+{
+    repeat
+
+char[ 10	] 
+crc,
+options1,  }
+    , 
+
+    // " ++ [128512]%N ++ runes_of_ascii " emoji
+
+  // trailing space 
+match 
+leftPad
+
+as Packet{ ""// no comment"" :  chars
+,
+[ 42,
+    0
+	]:a1 
+
+// c
+	  ""\n""
+:	len  // `tick` ""quote"" 'q'
+      , 3
+:// " ++ [128512]%N ++ runes_of_ascii " emoji
+
+Header
+}
+    ,
+char[]
+options1 @lengthOf(  //	t
+f32a
+
+) `
+`
+	,
+
+}	, // a // b
+
+}
+
+")).
+Eval vm_compute in ("<<<M1950>>>" ++ check (runes_of_ascii "packet Pad {
+    match string_ as asx {
+        7 : len,
+        3 : lengthOf,
+        [1] : charz,
+        ""{,}"" : string_,
+        ""\n"" : tag,
+    },
     @calculatedFrom(""a	b"")
-    // c33
-    string stringy @calculatedFrom(""\n"") `line1
-    line2`,// c40
-    pack `100% of %d`,
-    // c43
-}// c44")).
+    // packet A { u8 x, }
+    // " ++ [128512]%N ++ runes_of_ascii " emoji
+    i16 calculatedFrom `it's`,
+    @tag(10)
+    repeat o {
+        repeat char[] o `say ""hi""`,
+        int @calculatedFrom(""a\\""),
+        Foo {
+            repeat T {
+                f32 A @lengthOf(charz),
+                Logon @lengthOf(pack) `a\`,
+            },
+        },
+        // " ++ [128512]%N ++ runes_of_ascii " emoji
+        //
+    },
+}
+
+options {
+    i64_ = uint32;
+    falsey = ""a	b"";
+    BodyLength = '0';
+    lengthOf = """ ++ [28040; 24687]%N ++ runes_of_ascii """;
+    repeatCount = u64
+}")).
+Eval vm_compute in ("<<<M348>>>" ++ check (runes_of_ascii "packet //x
+rootA
+    {
+    @calculatedFrom( ""{,}""	)
+    @calculatedFrom( ""x y"" ) char[ 0
+    // packet A { u8 x, }
+    ] lengthOf,  @tag( 3 )
+    //	t
+    trueish,charz`" ++ [28040; 24687; 31867; 22411]%N ++ runes_of_ascii "` , match u8x as roots { ""x y"":
+    //	t
+    i64_ // " ++ [128512]%N ++ runes_of_ascii " emoji
+, ""a\\"":
+    As , ""CRC32"" :
+    calculatedFrom
+    //
+    , ""1""
+    :msg_type
+    ,
+[ """ ++ [233]%N ++ runes_of_ascii "t" ++ [233]%N ++ runes_of_ascii """  , 007 ]
+: Foo ,} , u32 lengthOf ,@lengthOf(
+options1 ) x_y_z Logon `100% of %d`, @tag(
+42
+) // packet A { u8 x, }
+A	{ f32a `u8 x,`
+// " ++ [128512]%N ++ runes_of_ascii " emoji
+// packet A { u8 x, }
+, }
+,//x
+@rightPad( ' ' ) char[// c
+65535]f32a `tab	here` ,
+// c
+/// triple
+}
+")).
+Eval vm_compute in ("<<<M342>>>" ++ check (runes_of_ascii "packet x
+{ @lengthOf( options1
+//
+//x
+)
+uint8
+    MetaDataX
+`// not a comment`
+    , packetx ,  @tag(
+42  )
+_x
+@calculatedFrom(
+// " ++ [27880; 37322]%N ++ runes_of_ascii "
+//
+""abc"" ) `" ++ [28040; 24687; 31867; 22411]%N ++ runes_of_ascii "`  , @lengthOf( stringy)string trueish
+`
+` , o	stringy`{ , }` , zchar[ 007 ] Logon , // 50% %s
+@rightPad
+(	'\x00'
+)repeat// 50% %s
+lengthOf{char[
+    65535 ]u128 ,int8 A , body { match // trailing space 
+x
+as
+options1 {
+7:
+    // trailing space 
+    roots // " ++ [128512]%N ++ runes_of_ascii " emoji
+""CRC32""
+:// packet A { u8 x, }
+i8i8  , }
+,
+} , } , }
+    //	t
+    packet As {
+} // @lengthOf(")).
+Eval vm_compute in ("<<<M1631>>>" ++ check (runes_of_ascii "MetaData u128 {
+}
+
+MetaData a1 {
+}// " ++ [128512]%N ++ runes_of_ascii " emoji
+
+root packet o {
+    char[10] stringy @lengthOf(Z9_),
+    match x_y_z as stringy {
+        3 : float,
+    },
+    @leftPad(' ')
+    u128 {
+        repeat i32 msg_type `it's`,
+        x,
+        repeat char[65535] T,
+        match A as i8i8 {
+            """ ++ [128512]%N ++ runes_of_ascii """ : Logon,
+        },
+    },
+}
+
+MetaData x_y_z {
+    // @lengthOf(
+    options1 a1,
+    u8x x_y_z `tab	here`,
+    char MetaDataX,// " ++ [27880; 37322]%N ++ runes_of_ascii "
+    zchar[65535] chars,
+    char[] crc `doc`,
+}")).
+Eval vm_compute in ("<<<M214>>>" ++ check (runes_of_ascii "
+options {string_ = float64 ; } root packet BodyLength
+    { Header , i16 Foo, lengthOf@calculatedFrom(
+""`tick`""	) //
+`// not a comment`
+    , @lengthOf( charz )// " ++ [128512]%N ++ runes_of_ascii " emoji
+repeat u32 a1 ,
+    calculatedFrom {
+    f64 chars @lengthOf( a1
+) `u8 x,`
+    , }  , repeat
+    i8
+    _x `
+`
+,} options
+{ }
+MetaData	i8i8
+    { // trailing space 
+MetaDataX A
+,	string
+asx,Packet Pad  `say ""hi""` , u128 stringy ,	i64 _x // " ++ [27880; 37322]%N ++ runes_of_ascii "
+,
+} packet x
+{	}")).
+Eval vm_compute in ("<<<M1793>>>" ++ check (runes_of_ascii "packet	o
+    {
+
+@rightPad(	'\x00' ) @calculatedFrom( ""a\""b"" 
+)	@rightPad(
+'0') char[ // trailing space 
+    	255
+
+]	zchar  @calculatedFrom(
+
+    ""\" ++ [233]%N ++ runes_of_ascii """ ) ,
+
+    char[ 
+      // 50% %s
+    	//	t
+		10 	 /// triple
+    	]
+	_x`" ++ [28040; 24687; 31867; 22411]%N ++ runes_of_ascii "`  , 
+} options 
+{ }
+
+    options {Pad ='0' 
+; 
+}packet i64_ 
+{
+
+    repeat string	// " ++ [128512]%N ++ runes_of_ascii " emoji
+	zchar
+, 
+@calculatedFrom(
+    """" ) @lengthOf(	Packet )  f32a 
+// c
+  // " ++ [27880; 37322]%N ++ runes_of_ascii "
+,	}
+")).
 Eval vm_compute in ("<<<M152>>>" ++ check (runes_of_ascii "packet uint8x
 { }root
     packet repeatCount{ @rightPad ( '\x00') // 50% %s
@@ -699,109 +707,73 @@ body )
 @tag( 007 ) @calculatedFrom( """ ++ [128512]%N ++ runes_of_ascii """ )
     char[	007	] uint8x , }
 ")).
-Eval vm_compute in ("<<<M234>>>" ++ check (runes_of_ascii "MetaData Header /// triple
-{ As
-options1 `two words` ,u64
-matchKey `100% of %d`
-    ,
-    }
-    root packet _x
-{ @lengthOf( i64_ )A @calculatedFrom(
+Eval vm_compute in ("<<<M1175>>>" ++ check (runes_of_ascii "// top
+options // c0
+{ // c1
+f32a // c2
+= // c3
+0 // c4
+} // c5
+packet // c6
+trueish // c7
+{ // c8
+} // c9
+MetaData // c10
+_x // c11
+{ // c12
+char[ // c13
+0123456789 // c14
+] // c15
+zchar // c16
+, // c17
+string // c18
+crc // c19
+, // c20
+char[ // c21
+1 // c22
+] // c23
+options1 // c24
+, // c25
+uint8 // c26
+repeatCount // c27
+, // c28
+} // c29
+")).
+Eval vm_compute in ("<<<M1795>>>" ++ check (runes_of_ascii "packet len {
+    // " ++ [27880; 37322]%N ++ runes_of_ascii "
+    @leftPad('0')
     // trailing space 
-    ""{,}"" )	, x matchKey  , o@calculatedFrom( //	t
-""{,}"" )	, @rightPad( '0' )
-@lengthOf(Z9_	)@calculatedFrom(
-    ""a\\"")
-zchar[ 65535
-] Packet @lengthOf(
-    Packet)	,}
-")).
-Eval vm_compute in ("<<<M130>>>" ++ check (runes_of_ascii "root packet
-    Z9_ { repeat /// triple
-MetaDataX { stringy ,
-    u32 pack , // @lengthOf(
+    Logon @lengthOf(_x) `100% of %d`,
+    char rootA,
+    @calculatedFrom(""" ++ [28040; 24687]%N ++ runes_of_ascii """)
+    @leftPad(' ')
+    // `tick` ""quote"" 'q'
+    i8 crc,
+    msg_type @calculatedFrom("""") `
+    `,// `tick` ""quote"" 'q'
 }
-    , } options
-{
-repeatCount =""it's"" metadata
-=
-""abc""
-A = // `tick` ""quote"" 'q'
-""CRC32"" ; x_y_z = // a // b
-char[ 007	] ;
-    } MetaData i8i8 {uint32  charz // a // b
-`doc`
-, //	t
-}root packet trueish { }")).
-Eval vm_compute in ("<<<M24>>>" ++ check (runes_of_ascii "packet float
-// trailing space 
-// c
-{ @leftPad (' ')repeat char[] MetaDataX , @leftPad (
-)
-    i16 x_y_z @calculatedFrom( ""CRC32""
-)
-, }packet chars {
-    } packet asx
-{
-@tag( 255)
-@tag( 4294967296 ) @calculatedFrom(
-""{,}""
-    // c
-    )
-matchKey /// triple
-o `
-` ,}
-")).
-Eval vm_compute in ("<<<M1660>>>" ++ check (runes_of_ascii "// top
-MetaData msg_type {
+
+options {
+}
+
+options {
+    u8x = true
+}")).
+Eval vm_compute in ("<<<M1868>>>" ++ check (runes_of_ascii "// top
+packet float {
     // c2
-    int32 As `crlf
-        line`,// c6
-    MetaDataX x `a\`,// c10
-    int8 _x,// c13
-    char[] As `u8 x,`,// c17
-    zchar[3] uint8x,// c22
-    As Foo,// c25
-}// c26
+    @rightPad()
+    // c5
+    rootA @lengthOf(trueish),// c10
+    stringy @lengthOf(matchKey),// c15
+    char[4294967296] pack @lengthOf(uint8x),// c23
+}// c24
 
-root packet repeatCount {
-    // c30
-}// c31")).
-Eval vm_compute in ("<<<M442>>>" ++ check (runes_of_ascii "packet
-    asx { @calculatedFrom(
-""""  ) @tag( 255 )repeat
-// packet A { u8 x, }
-// trailing space 
-int16 u8x u8x
-,
-@tag(
-    //
-    007 )
-    @tag( 0
-    /// triple
-    ) @tag( 1) u
-    @lengthOf( T ),
-// `tick` ""quote"" 'q'
-//x
-} // " ++ [128512]%N ++ runes_of_ascii " emoji")).
-Eval vm_compute in ("<<<M532>>>" ++ check (runes_of_ascii "packet
-    asx { @calculatedFrom(
-""""  ) @tag( 255 )repeat
-// packet A { u8 x, }
-// trailing space 
-int16 u8x
-,
-\@tag(
-    //
-    007 )
-    @tag( 0
-    /// triple
-    ) @tag( 1) u
-    @lengthOf( T ),
-// `tick` ""quote"" 'q'
-//x
-} // " ++ [128512]%N ++ runes_of_ascii " emoji")).
-Eval vm_compute in ("<<<M478>>>" ++ check (runes_of_ascii "packet
+root packet trueish {
+    // c28
+    repeat uint64 u128 `say ""hi""`,// c33
+}// c34")).
+Eval vm_compute in ("<<<M502>>>" ++ check (runes_of_ascii "packet
     asx { @calculatedFrom(
 """"  ) @tag( 255 )repeat
 // packet A { u8 x, }
@@ -813,14 +785,14 @@ int16 u8x
     007 )
     @tag( 0
     /// triple
-    @tag( ) 1) u
-    @lengthOf( T ),
+    ) @tag( 1) u
+    @lengthOf( @lengthOf( T ),
 // `tick` ""quote"" 'q'
 //x
 } // " ++ [128512]%N ++ runes_of_ascii " emoji")).
-Eval vm_compute in ("<<<M394>>>" ++ check (runes_of_ascii "packet
-    { { @calculatedFrom(
-""""  ) @tag( 255 )repeat
+Eval vm_compute in ("<<<M407>>>" ++ check (runes_of_ascii "packet
+    asx { @calculatedFrom(
+"""" """"  ) @tag( 255 )repeat
 // packet A { u8 x, }
 // trailing space 
 int16 u8x
@@ -835,275 +807,283 @@ int16 u8x
 // `tick` ""quote"" 'q'
 //x
 } // " ++ [128512]%N ++ runes_of_ascii " emoji")).
-Eval vm_compute in ("<<<M1314>>>" ++ check (runes_of_ascii "// top
-packet
-    // c0
-order_item // c1
-{ // c2a
-  // c2b
-u8 // c3a
-  // c3b
-a // c4a
-  // c4b
-, // c5
-} root packet new_order {
-    // c10
-order_item // c11
-, // c12
-u8 // c13a
-  // c13b
-x
-    // c14
-, } // c16a
-  // c16b
-")).
-Eval vm_compute in ("<<<M1713>>>" ++ check (runes_of_ascii "packet len {
-    @calculatedFrom(""{,}"")
-    zchar[10] packetx `line1
-        line2`,
-    @lengthOf(metadata)
-    @calculatedFrom(""a	b"")
-    matchKey @lengthOf(As),
-    chars uint8x `a\`,
-    char[65535] Foo,
-}")).
-Eval vm_compute in ("<<<M31>>>" ++ check (runes_of_ascii "MetaData u128
-    {// @lengthOf(
-len x
-    `it's` ,BodyLength
-    Foo
-`doc`, string_ a1 `{ , }`  ,	calculatedFrom u8x `u8 x,`
-, MetaDataX// trailing space 
-matchKey ,
-}
-packet u128	{ }")).
-Eval vm_compute in ("<<<M1304>>>" ++ check (runes_of_ascii "packet A {
-    u8 a,
-}
-packet B {
-    u16 b,
-}
-root packet P {
-    u8 K1,
-    u8 K2,
-    match K1 as M1 {
-        1 : A,
-    },
-    match K2 as M2 {
-        1 : B,
-    },
-}
-")).
-Eval vm_compute in ("<<<M699>>>" ++ check (runes_of_ascii "MetaData u
-    { } MetaData o
-{ float uint8x
-`100% of %d` ,repeatCount u8x, string_ leftPad
-, i32
-    Foo , int64 x `two '1'words` , calculatedFrom
-stringy `a\` ,
-}
-")).
-Eval vm_compute in ("<<<M613>>>" ++ check (runes_of_ascii "MetaData u
-    { } MetaData o
-{ float uint8x
-`100% of %d` ,repeatCount u8x string_ , leftPad
-, i32
-    Foo , int64 x `two words` , calculatedFrom
-stringy `a\` ,
-}
-")).
-Eval vm_compute in ("<<<M638>>>" ++ check (runes_of_ascii "MetaData u
-    { } MetaData o
-{ float uint8x
-`100% of %d` ,repeatCount u8x, string_ leftPad
-, i32
-    , Foo int64 x `two words` , calculatedFrom
-stringy `a\` ,
-}
-")).
-Eval vm_compute in ("<<<M634>>>" ++ check (runes_of_ascii "MetaData u
-    { } MetaData o
-{ float uint8x
-`100% of %d` ,repeatCount u8x, string_ leftPad
-, =
-    Foo , int64 x `two words` , calculatedFrom
-stringy `a\` ,
-}
-")).
-Eval vm_compute in ("<<<M352>>>" ++ check (runes_of_ascii "MetaData crc
-    // " ++ [128512]%N ++ runes_of_ascii " emoji
-    { packetx repeatCount  ,
-    f32a As //x
-`line1
-line2`, crc len `line1
-line2` , zchar[ 0123456789 ] uint8x , zchar[0 ]As, }
-")).
-Eval vm_compute in ("<<<M1773>>>" ++ check (runes_of_ascii "root packet body {
-    string chars `" ++ [233]%N ++ runes_of_ascii "`,
-    repeat uint8x,
-    match uint8x as x {
-        007 : calculatedFrom,
-    },
-    string_ falsey `
-    `,
-}")).
-Eval vm_compute in ("<<<M1628>>>" ++ check (runes_of_ascii "  options {
-} options 
-{MetaDataX 
-= char
-
-;}MetaData Pad // c
-	{ i8
-    metadata
-, string
-    stringy
-
-    ,
-    int8 As 
-`{ , }` , 
-}
-")).
-Eval vm_compute in ("<<<M247>>>" ++ check (runes_of_ascii "root	packet
-f32a { float32 // packet A { u8 x, }
-pack`// not a comment`, // `tick` ""quote"" 'q'
-}
-packet
-chars{
-//	t
-// " ++ [128512]%N ++ runes_of_ascii " emoji
-}")).
-Eval vm_compute in ("<<<M1965>>>" ++ check (runes_of_ascii "
-root
-packet
-
-    MetaDataX  { }
-
-    options	{  rootA  =	7;
-_x
-
-    =
-""it's""
-; matchKey	=
-3
-	}
-
-packet
-rootA
-{	}
-")).
-Eval vm_compute in ("<<<M1731>>>" ++ check (runes_of_ascii "
-packet A 
-{ match k as 
-n	{
-[
-1 ,
-22
-	, 007
-, 4
-    , 5
-
+Eval vm_compute in ("<<<M540>>>" ++ check (runes_of_ascii "packet
+    asx { @calculatedFrom(
+""""  ) @tag( 255 )repeat
+// packet A { u8 x, }
+// trailing space 
+int16 u8x
 ,
-
-66
+@tag(
+    //
+    007 )
+    @tag( 0
+    /// triple
+    ) @tag( 1) u
+    @lengthOf( T )/,
+// `tick` ""quote"" 'q'
+//x
+} // " ++ [128512]%N ++ runes_of_ascii " emoji")).
+Eval vm_compute in ("<<<M508>>>" ++ check (runes_of_ascii "packet
+    asx { @calculatedFrom(
+""""  ) @tag( 255 )repeat
+// packet A { u8 x, }
+// trailing space 
+int16 u8x
 ,
-7,
-    8
-	,
-
-9
-]
-:  B
-
+@tag(
+    //
+    007 )
+    @tag( 0
+    /// triple
+    ) @tag( 1) u
+    @lengthOf( ) T,
+// `tick` ""quote"" 'q'
+//x
+} // " ++ [128512]%N ++ runes_of_ascii " emoji")).
+Eval vm_compute in ("<<<M416>>>" ++ check (runes_of_ascii "packet
+    asx { @calculatedFrom(
+""""  )  255 )repeat
+// packet A { u8 x, }
+// trailing space 
+int16 u8x
 ,
-	2: C
+@tag(
+    //
+    007 )
+    @tag( 0
+    /// triple
+    ) @tag( 1) u
+    @lengthOf( T ),
+// `tick` ""quote"" 'q'
+//x
+} // " ++ [128512]%N ++ runes_of_ascii " emoji")).
+Eval vm_compute in ("<<<M1429>>>" ++ check (runes_of_ascii "  options  {}
+
+packet
+u128 	 // 50% %s
+    	{ @tag( 
+    // `tick` ""quote"" 'q'
+  // " ++ [27880; 37322]%N ++ runes_of_ascii "
+	  255)
+
+    @tag( // `tick` ""quote"" 'q'
+    	0)  Packet	, }packet
+u8x	{ o,}packet
+As{
+
+repeat
+msg_type
+
+    Header	,
     }
-,
-}
 
 ")).
-Eval vm_compute in ("<<<M1222>>>" ++ check (runes_of_ascii "options { } options { MetaDataX = char ; }
-// c
-MetaData Pad { i8 metadata , string stringy , int8 As `{ , }` , }")).
-Eval vm_compute in ("<<<M977>>>" ++ check (runes_of_ascii "packet A {
-    u16 len @lengthOf(body) `%%d%!`,
-    u32 crc @calculatedFrom(""CRC32"") `%%d%!`,
+Eval vm_compute in ("<<<M510>>>" ++ check (runes_of_ascii "packet
+    asx { @calculatedFrom(
+""""  ) @tag( 255 )repeat
+// packet A { u8 x, }
+// trailing space 
+int16 u8x
+,
+@tag(
+    //
+    007 )
+    @tag( 0
+    /// triple
+    ) @tag( 1) u
+    @lengthOf(")).
+Eval vm_compute in ("<<<M500>>>" ++ check (runes_of_ascii "packet
+    asx { @calculatedFrom(
+""""  ) @tag( 255 )repeat
+// packet A { u8 x, }
+// trailing space 
+int16 u8x
+,
+@tag(
+    //
+    007 )
+    @tag( 0
+    /// triple
+    ) @tag( 1)")).
+Eval vm_compute in ("<<<M582>>>" ++ check (runes_of_ascii "MetaData u
+    { } MetaData o
+{ float float uint8x
+`100% of %d` ,repeatCount u8x, string_ leftPad
+, i32
+    Foo , int64 x `two words` , calculatedFrom
+stringy `a\` ,
+}
+")).
+Eval vm_compute in ("<<<M612>>>" ++ check (runes_of_ascii "MetaData u
+    { } MetaData o
+{ float uint8x
+`100% of %d` ,repeatCount u8x, , string_ leftPad
+, i32
+    Foo , int64 x `two words` , calculatedFrom
+stringy `a\` ,
+}
+")).
+Eval vm_compute in ("<<<M558>>>" ++ check (runes_of_ascii "MetaData u
+    } { MetaData o
+{ float uint8x
+`100% of %d` ,repeatCount u8x, string_ leftPad
+, i32
+    Foo , int64 x `two words` , calculatedFrom
+stringy `a\` ,
+}
+")).
+Eval vm_compute in ("<<<M551>>>" ++ check (runes_of_ascii "MetaData 
+    { } MetaData o
+{ float uint8x
+`100% of %d` ,repeatCount u8x, string_ leftPad
+, i32
+    Foo , int64 x `two words` , calculatedFrom
+stringy `a\` ,
+}
+")).
+Eval vm_compute in ("<<<M709>>>" ++ check (runes_of_ascii "packet
+crc
+{repeat  Foo A   ,	@lengthOf( uint8x ) string
+matchKey @lengthOf( stringy ) `a\`
+,
+    // c
+    }
+MetaData chars{
+leftPad
+    //	t
+    crc
+`" ++ [233]%N ++ runes_of_ascii "`
+,}")).
+Eval vm_compute in ("<<<M656>>>" ++ check (runes_of_ascii "MetaData u
+    { } MetaData o
+{ float uint8x
+`100% of %d` ,repeatCount u8x, string_ leftPad
+, i32
+    Foo , int64 x  , calculatedFrom
+stringy `a\` ,
+}
+")).
+Eval vm_compute in ("<<<M1255>>>" ++ check (runes_of_ascii "// top
+root
+    // c0
+packet P // c2
+{ // c3
+repeat // c4a
+  // c4b
+char
+    // c5
+cs ,
+    // c7
+u8 // c8
+x // c9
+, // c10
+} // c11a
+  // c11b
+")).
+Eval vm_compute in ("<<<M965>>>" ++ check (runes_of_ascii "packet A {
+    u16 len @lengthOf(body) `100% of %s %d %v`,
+    u32 crc @calculatedFrom(""CRC32"") `100% of %s %d %v`,
     string body,
 }")).
-Eval vm_compute in ("<<<M179>>>" ++ check (runes_of_ascii "packet MetaDataX//	t
-{ chars @lengthOf(  lengthOf
-    ) `" ++ [233]%N ++ runes_of_ascii "`,
-repeat int64 o	,
-    }	MetaData matchKey { }")).
-Eval vm_compute in ("<<<M1780>>>" ++ check (runes_of_ascii "
-packet
+Eval vm_compute in ("<<<M1415>>>" ++ check (runes_of_ascii "packet
+    _x 
+{	@lengthOf(
+    packetx)
+_x@lengthOf(  // c
+  f32a
 
-A {  match k	as
-    n 
+)
+
+    , 
+float64 Header  @calculatedFrom( ""it's"")
+, }
+
+")).
+Eval vm_compute in ("<<<M660>>>" ++ check (runes_of_ascii "MetaData u
+    { } MetaData o
+{ float uint8x
+`100% of %d` ,repeatCount u8x, string_ leftPad
+, i32
+    Foo , int64 x")).
+Eval vm_compute in ("<<<M1213>>>" ++ check (runes_of_ascii "options { } options { MetaDataX // c
+= char ; } MetaData Pad { i8 metadata , string stringy , int8 As `{ , }` , }")).
+Eval vm_compute in ("<<<M1245>>>" ++ check (runes_of_ascii "options { } options { MetaDataX = char ; } MetaData Pad { i8 metadata , string stringy , int8 As `{ , }` // c
+, }")).
+Eval vm_compute in ("<<<M909>>>" ++ check (runes_of_ascii "packet A {
+  match k as n {
+    [""a"", 22, ""c c"", 4, ""e"", 66, ""g"", 8, ""i"", 10, ""k"", 12] : B
+    2 : C
+  },
+}")).
+Eval vm_compute in ("<<<M911>>>" ++ check (runes_of_ascii "packet A {
+  match k as n {
+    [1, 22, ""c c"", 4, 5, ""f"", 7, 8, ""i"", 10, 11, ""l""] : B
+    2 : C
+  },
+}")).
+Eval vm_compute in ("<<<M852>>>" ++ check (runes_of_ascii "packet A {
+  match k as n {
+    [""a"", ""bb"", ""c c"", ""d"", ""e"", ""f"", ""g"", ""h""] : B,
+    2 : C
+  },
+}")).
+Eval vm_compute in ("<<<M526>>>" ++ check (runes_of_ascii "packet
+    asx { @calculatedFrom(
+""""  ) @tag( 255 )repeat
+// packet A { u8 x, }
+// trailing ")).
+Eval vm_compute in ("<<<M1561>>>" ++ check (runes_of_ascii "  packet	A {
+
+    match
+k
+
+    as n  { 
+[ ""a"" ,22 , ""c c""
+]
+:
+
+B ,
+    2 :
+
+C} ,
+
+} ")).
+Eval vm_compute in ("<<<M386>>>" ++ check (runes_of_ascii "root packet SimpleMessage {
+	uint16 MsgType `" ++ [28040; 24687; 31867; 22411]%N ++ runes_of_ascii "`,
+	string JsonBody `Json" ++ [23383; 31526; 20018; 28040; 24687; 20307]%N ++ runes_of_ascii "`,
+}")).
+Eval vm_compute in ("<<<M846>>>" ++ check (runes_of_ascii "packet A {
+  match k as n {
+    [1, 22, ""c c"", 4, 5, ""f"", 7] : B
+    2 : C
+  },
+}")).
+Eval vm_compute in ("<<<M801>>>" ++ check (runes_of_ascii "packet A {
+  match k as n {
+    [""a"", ""bb"", ""c c"", ""d""] : B
+    2 : C
+  },
+}")).
+Eval vm_compute in ("<<<M265>>>" ++ check (runes_of_ascii "// c
+packet options1
+{options1
+x
+, }
+    options
 {
-[  1
-,	""bb"",007 ,
-	""d"" 
-,
-5  ,
-""f""
-	]
+Logon = float32  } 	 ")).
+Eval vm_compute in ("<<<M1303>>>" ++ check (runes_of_ascii "
+root	packet
 
-    : B ,2 :	C
+P	{u8
+	s_u8
+    ,repeat
+    u8
+	r_u8 
+, u16  b_len
+,}
 
-}
-,
-
-}
-
-")).
-Eval vm_compute in ("<<<M972>>>" ++ check (runes_of_ascii "packet A {
-    Inner {
-        u8 x `%`,
-        Deep {
-            u8 y `%`,
-        },
-    },
-}")).
-Eval vm_compute in ("<<<M1878>>>" ++ check (runes_of_ascii "packet A {
-    match k as n {
-        [""a"", ""bb"", 007, ""d"", ""e""] : B,
-        2 : C,
-    },
-}")).
-Eval vm_compute in ("<<<M855>>>" ++ check (runes_of_ascii "packet A {
-  match k as n {
-    [1, ""bb"", 007, ""d"", 5, ""f"", 7, ""h""] : B
-    2 : C
-  },
-}")).
-Eval vm_compute in ("<<<M753>>>" ++ check (runes_of_ascii "} @tag( string zchar[ float32 f64 @calculatedFrom( i8 lengthOf ) u64 ' ' uint8 @tag(")).
-Eval vm_compute in ("<<<M1316>>>" ++ check (runes_of_ascii "packet orderItem {
-    u8 a,
-}
-root packet newOrder {
-    orderItem,
-    u8 x,
-}
-")).
-Eval vm_compute in ("<<<M1455>>>" ++ check (runes_of_ascii "root packet P {
-    u16 a,
-    u32 Sum @calculatedFrom(""CR\
-        C32""),
-}")).
-Eval vm_compute in ("<<<M811>>>" ++ check (runes_of_ascii "packet A {
-  match k as n {
-    [1, 22, 007, 4, 5] : B,
-    2 : C
-  },
-}")).
-Eval vm_compute in ("<<<M1663>>>" ++ check (runes_of_ascii "packet	A
-
-{ repeat  // a
-    B	// b
-
-	b  // c
-		`d`	// e
-      , }
 ")).
 Eval vm_compute in ("<<<M1253>>>" ++ check (runes_of_ascii "
 
@@ -1121,43 +1101,42 @@ u8 x
 
 ")).
 Eval vm_compute in ("<<<M810>>>" ++ check (runes_of_ascii "packet A { Inner { match k as n { [1,22,007,4] : B, }, }, }")).
-Eval vm_compute in ("<<<M64>>>" ++ check (runes_of_ascii "options	{
-    BodyLength=
-true ;string_= false ;	} 	 ")).
-Eval vm_compute in ("<<<M1119>>>" ++ check (runes_of_ascii "// top
-MetaData // c0
-tag // c1
-{ // c2
-} // c3
+Eval vm_compute in ("<<<M1089>>>" ++ check (runes_of_ascii "packet A { match k as n { 1 : B // a // b 2 : C }, }")).
+Eval vm_compute in ("<<<M243>>>" ++ check (runes_of_ascii "// `tick` ""quote"" 'q'
+options { f32a  = uint16}")).
+Eval vm_compute in ("<<<M301>>>" ++ check (runes_of_ascii "MetaData matchKey{ int64
+    Packet ,} 	 ")).
+Eval vm_compute in ("<<<M415>>>" ++ check (runes_of_ascii "packet
+    asx { @calculatedFrom(
+""""")).
+Eval vm_compute in ("<<<M1644>>>" ++ check (runes_of_ascii "
+// c" ++ [8232]%N ++ runes_of_ascii "
+  packet A
+    {
+
+    }
+
 ")).
-Eval vm_compute in ("<<<M1164>>>" ++ check (runes_of_ascii "// top
-packet // c0
-x { // c2
-}
-    // c3
+Eval vm_compute in ("<<<M49>>>" ++ check (runes_of_ascii "root packet i8i8
+{ } /// triple")).
+Eval vm_compute in ("<<<M1017>>>" ++ check (runes_of_ascii "packet A {
+ u8 x `d" ++ [5760]%N ++ runes_of_ascii "`, // c" ++ [5760]%N ++ runes_of_ascii "
+}")).
+Eval vm_compute in ("<<<M575>>>" ++ check (runes_of_ascii "MetaData u
+    { } MetaData")).
+Eval vm_compute in ("<<<M289>>>" ++ check (runes_of_ascii "// `tick` ""quote"" 'q'
+
 ")).
-Eval vm_compute in ("<<<M768>>>" ++ check (runes_of_ascii "w<w-(B[D_CTb}.VTf6[j)R_7Mxw1`%hl?2D>/d")).
-Eval vm_compute in ("<<<M1191>>>" ++ check (runes_of_ascii "options { A = ""// no comment"" // c
+Eval vm_compute in ("<<<M1129>>>" ++ check (runes_of_ascii "MetaData tag {
+// c
 }")).
-Eval vm_compute in ("<<<M950>>>" ++ check (runes_of_ascii "root packet A {
-    u8 x `x
-`,
+Eval vm_compute in ("<<<M1036>>>" ++ check (runes_of_ascii "// c" ++ [8233]%N ++ runes_of_ascii "
+packet A {
 }")).
-Eval vm_compute in ("<<<M1047>>>" ++ check (runes_of_ascii "packet A {
- u8 x `d" ++ [8287]%N ++ runes_of_ascii "`, // c" ++ [8287]%N ++ runes_of_ascii "
-}")).
-Eval vm_compute in ("<<<M1823>>>" ++ check (runes_of_ascii "packet A {
-    char[3] x,
-}")).
-Eval vm_compute in ("<<<M1145>>>" ++ check (runes_of_ascii "root packet // c
-a1 { }")).
-Eval vm_compute in ("<<<M1912>>>" ++ check (runes_of_ascii "// c
-MetaData tag {
-}")).
-Eval vm_compute in ("<<<M1040>>>" ++ check (runes_of_ascii "packet A {
-}
-// c" ++ [8239]%N)).
-Eval vm_compute in ("<<<M1033>>>" ++ check (runes_of_ascii "packet A {
-}// c" ++ [8233]%N)).
-Eval vm_compute in ("<<<M216>>>" ++ check (runes_of_ascii "packet u8x { }")).
-Eval vm_compute in ("<<<M1019>>>" ++ check (runes_of_ascii "// c" ++ [8192]%N)).
+Eval vm_compute in ("<<<M1023>>>" ++ check (runes_of_ascii "packet A {
+}// c" ++ [8202]%N)).
+Eval vm_compute in ("<<<M123>>>" ++ check (runes_of_ascii "
+packet _x {}
+")).
+Eval vm_compute in ("<<<M999>>>" ++ check (runes_of_ascii "// c" ++ [12288]%N)).
+Eval vm_compute in ("<<<M732>>>" ++ check ([65279]%N)).
